@@ -17,10 +17,12 @@
    the previous line's state are printed; "full" as argv[1] prints every record on every line.
    Pointers are printed as ids, never as addresses.  Every node is a separate malloc block and is
    freed as soon as it leaves the tree, so that ASan reports any later access through a stale link. */
+#define _POSIX_C_SOURCE 200809L /* alarm(): a library loop that does not terminate must end the run, not hang the check */
 #include "a/avl.h"
 #include <stdio.h>
 #include <stdlib.h>
 #include <string.h>
+#include <unistd.h>
 
 typedef struct
 {
@@ -127,6 +129,7 @@ int main(int argc, char **argv)
     setvbuf(stdout, A_NULL, _IOLBF, 0);
     while (fgets(line, sizeof(line), stdin))
     {
+        alarm(10); /* watchdog per input line: SIGALRM ends the process, the check restarts after the case */
         long a = 0, b = 0;
         char c = line[0];
         if (c == 'H')
